@@ -1,6 +1,7 @@
 package checks
 
 import (
+	"context"
 	"fmt"
 	"os"
 	"reflect"
@@ -43,8 +44,21 @@ func init() {
 
 var zooVals = zooValues()
 
+// a context with a far deadline and a value, as a request handler would pass it
+var c03DeadlineCtx, _ = context.WithDeadline(context.WithValue(context.Background(), ctxKey{}, "v"), time.Now().Add(1000*time.Hour))
+
+// deepMap: a map nested 80 levels through the key k.
+var deepMap = func() map[string]interface{} {
+	m := map[string]interface{}{"k": 1.0}
+	for i := 0; i < 80; i++ {
+		m = map[string]interface{}{"k": m}
+	}
+	return m
+}()
+
 func sigmaEvalData() map[string]interface{} {
 	return map[string]interface{}{
+		"dm": deepMap, "idm": func(x interface{}) (interface{}, error) { return x, nil },
 		"n": nil, "s": "a", "x": 3.0, "m": map[string]interface{}{"k": 1.0, "s": "a", "f": goodFunc},
 		"f": goodFunc, "arr": []interface{}{1.0, "a"}, "st": zooStruct{A: 1, S: "s"}, "t": zooTime, "a": 1.0, "b": 2.0,
 	}
@@ -94,6 +108,26 @@ func judgeC03(c EvalCase) *eng.Fail {
 	note("evaluated", 1)
 	if o.panicked {
 		return eng.F("C03/panic", "Resolve panicked: %s", o.panicMsg)
+	}
+	// the same evaluation under a context that carries a deadline (and a value): the context is the
+	// caller's business and changes nothing about totality or the outcome class
+	if os.Getenv("VERIF_C03_DEADLINE") != "0" {
+		r2 := formula.NewRunner()
+		if d := dataConfig(c.Data); d != nil {
+			r2.SetThis(d)
+		}
+		resetSteps()
+		o2 := safeResolve(r2, c03DeadlineCtx, p.src.Expression)
+		if stepBudgetHit() {
+			return eng.F("C03/step-budget", "evaluation under a context with a deadline did not finish within the step budget")
+		}
+		if o2.panicked {
+			return eng.F("C03/panic", "Resolve under a context with a deadline panicked: %s", o2.panicMsg)
+		}
+		// (a formula that names the context itself may of course see the difference)
+		if (o2.err == nil) != (o.err == nil) && !strings.Contains(c.Src, "ctx") {
+			return eng.F("C03/context-dependent", "with a plain context: %v / %s; with a context that carries a deadline: %v / %s", o.err, show(o.val), o2.err, show(o2.val))
+		}
 	}
 	if o.err != nil {
 		outcome("error")
